@@ -70,6 +70,8 @@ class Cfg(object):
         self.ids_flat = 8  # 1 in n specs uses the same ID strings for objects of different kinds
         self.multi_parent = 0  # 1 in n nested "free" specs gives some component a second parent
         self.org_tree = 0  # 1 in n specs sets parent_team / parent_workplace links
+        self.auto_nf = True  # automatic tasks bound to a component may be flagged need_facility
+        self.default_names = 6  # 1 in n specs: workers, teams, workplaces, components all have their kind's default name
         self.extend_style = 6  # 1 in n specs is wired through the extend_* helpers instead of append_*
         for k, v in kw.items():
             if not hasattr(self, k):
@@ -188,6 +190,9 @@ def model_spec(draw, cfg):
                     t["comp"] = None
             if t["comp"] is not None and not t["auto"] and n_wps > 0:
                 t["nf"] = draw(st.booleans())
+            elif t["comp"] is not None and t["auto"] and n_wps > 0 and cfg.auto_nf:
+                # an automatic task may carry the need_facility flag: it still proceeds by its own rate, unallocated
+                t["nf"] = draw(st.integers(0, 2)) == 0
             if cfg.per_task_rules:
                 t["wpr"] = draw(st.sampled_from([0, 1]))
                 t["fr"] = draw(st.sampled_from([-1, 0, 1, 2]))
@@ -340,6 +345,8 @@ def model_spec(draw, cfg):
         spec["ids"] = "flat"
     if _one_in(draw, cfg.extend_style):
         spec["extend"] = True
+    if _one_in(draw, cfg.default_names):
+        spec["default_names"] = True
     if _one_in(draw, cfg.org_tree):
         for k, tm in enumerate(teams):
             if n_teams > 1 and draw(st.booleans()):
